@@ -35,6 +35,13 @@ Theorem C07_order : forall H mac epoch_of routes deser cfg now r evs out,
 Proof. exact call_shape. Qed.
 Print Assumptions C07_order.
 
+(* a header value that is not text - a byte outside tab / visible ASCII, in an Authorization header for one - ends the request before the
+   signature stage: nothing runs, whatever the request presents and whatever the configuration admits *)
+Theorem C07_unreadable_header_refused : forall H mac epoch_of routes deser cfg now r n v,
+  In (n, v) (rq_headers r) -> text_value v = false -> exists code, call H mac epoch_of routes deser cfg now r = ([], OError code).
+Proof. exact unreadable_header_refused. Qed.
+Print Assumptions C07_unreadable_header_refused.
+
 (* denials stop processing *)
 Theorem C07_reject_stops : forall H mac epoch_of routes deser cfg now r p code pd,
   pre cfg r = inr p -> signature_stage H mac epoch_of cfg now r p = (Some (Reject code), pd) ->
